@@ -55,9 +55,14 @@ def run(ctx):
             msg = "SPEC-DRIFT: Ardop.tla cannot follow the TNC log of schedule %s at position %d: %s" % (r["scen"], ml, [(e["op"], e["v"]) for e in r["ev"]][:ml + 1][-8:])
             print(msg[:500])
             ctx.drift.append(msg)
+    starved = 0
     for (t, l) in rejected:
         row = rows[t - 1]
         sc = row["scen"]
+        if isinstance(sc, dict) and not sc.get("stalledlistener") and any(e["op"] == "Starved" and e["n"] > 0 for e in row["ev"]):
+            # the library's 500 ms eviction of a live receiver fired: the process was starved of CPU; not a verdict on the code
+            starved += 1
+            continue
         ev = row["ev"][l - 1] if 0 < l <= len(row["ev"]) else {"op": "?"}
         op = ev["op"]
         if op == "Infra":
@@ -92,6 +97,10 @@ def run(ctx):
             key = "C14/crash/" + str(ev.get("func") or ev.get("site"))
             what = "the process died: %s in %s (scenario %s)" % (ev.get("site"), ev.get("func"), sc)
         vlib.report_violation(ctx, key, what, {"scenario": sc, "event": ev, "events": row["ev"]})
+    if starved:
+        ctx.notes.append("%d schedule(s) left out: the library evicted a live control-message receiver after 500 ms (CPU starvation)" % starved)
+        if starved * 4 > len(rows):
+            raise vlib.Undecided("%d of %d schedules were starved of CPU: machine too loaded" % (starved, len(rows)))
     vlib.write_evidence(ctx, "model_checking", {
         "traces_validated_against_impl": acc,
         "evaluations": st["traces"],
